@@ -19,10 +19,11 @@ import (
 
 // Violation is one observed refutation of a property.
 type Violation struct {
-	Key     string `json:"key"`     // canonical key (matched against known_findings.json)
-	Monitor string `json:"monitor"` // sub-monitor that observed it
-	Case    int64  `json:"case"`    // case index inside that sub-monitor
-	Detail  string `json:"detail"`  // human readable: input, expected, observed
+	Key     string `json:"key"`            // canonical key (matched against known_findings.json)
+	Monitor string `json:"monitor"`        // sub-monitor that observed it
+	Case    int64  `json:"case"`           // case index inside that sub-monitor
+	Detail  string `json:"detail"`         // human readable: input, expected, observed
+	Arch    string `json:"arch,omitempty"` // GOARCH of the worker that observed it when it is not amd64
 }
 
 // Result is what one worker process reports to the parent.
@@ -247,7 +248,12 @@ func (c *Ctx) Violate(key string, format string, args ...interface{}) {
 	if len(d) > 1500 {
 		d = d[:1500] + "…"
 	}
-	c.res.Violations = append(c.res.Violations, Violation{Key: key, Monitor: c.curMon, Case: c.curCase, Detail: d})
+	arch := ""
+	if runtime.GOARCH != "amd64" {
+		arch = runtime.GOARCH
+		d += " [observed in the GOARCH=" + arch + " build of the harness and the library]"
+	}
+	c.res.Violations = append(c.res.Violations, Violation{Key: key, Monitor: c.curMon, Case: c.curCase, Detail: d, Arch: arch})
 }
 
 // Guard runs f and converts a panic into (true, message).
